@@ -444,6 +444,21 @@ def resource_api(r):
         box.resource("library.example.com/OuterBox", ["outerBoxes/{outer_box}"])
         gq = api.main.message("GetOuterBoxRequest"); gq.field("name", 1, "string")
         r.choice(api.services).rpc("GetOuterBox", gq.fqn, box.fqn, http=("get", "/v1/{name=outerBoxes/*}"), sigs=["name"])
+    if r.random() < 0.7:
+        # two different messages with the SAME short name (nested: Rack.Details / Tome.Details) on the way down from a response; a resource
+        # message sits below one of them only. Both field orders, because the walk over field types is a stack.
+        for tag, order in (("A", ("rack", "tome")), ("B", ("tome", "rack"))):
+            auth = api.main.message(f"Curator{tag}"); auth.field("name", 1, "string")
+            auth.resource(f"library.example.com/Curator{tag}", ["curators%s/{curator_%s}" % (tag, tag.lower())])
+            rack = api.main.message(f"Rack{tag}"); rd = rack.nested("Details"); rd.field("curator", 1, auth.fqn)
+            rack.field("details", 1, rd.fqn)
+            tome = api.main.message(f"Tome{tag}"); td = tome.nested("Details"); td.field("note", 1, "string")
+            tome.field("details", 1, td.fqn)
+            cat = api.main.message(f"Catalog{tag}")
+            for n, which in enumerate(order, 1):
+                cat.field(which, n, (rack if which == "rack" else tome).fqn)
+            cq = api.main.message(f"GetCatalog{tag}Request"); cq.field("name", 1, "string")
+            r.choice(api.services).rpc(f"GetCatalog{tag}", cq.fqn, cat.fqn, http=("get", "/v1/{name=catalogs%s/*}" % tag), sigs=["name"])
     api.extra = []
     if r.random() < 0.6:
         # resources DECLARED in a dependency package's file (not generated), reached only through references
